@@ -8,13 +8,13 @@ TEXT = {
     "C01": {
         "engine": "rapid-wire",
         "technique": "grammar-based IE-tree mutation fuzzing (rapid) of every PFCP message type injected at drawn points of association/session histories, with liveness probe and follow-up scenario oracle; crash attribution by journal + delta debugging",
-        "level_text": "Mutants (drop/duplicate/empty/truncate/retype/reorder/unknown IE/IPv6-only/CHOOSE flags/flow-description surgery/header surgery, byte-level corruption, garbage) of templates of all dispatched and undispatched message types are sent over UDP to the real agent in states none/associated/session/modified/zero-PDR/deleted/released, with UE-IP allocation on and off. Oracle: process alive, probe heartbeat answered, at most one datagram back per datagram, and a canonical valid scenario afterwards succeeds on the same and on another association. A process death is attributed to the case in flight, confirmed in a fresh process and delta-debugged.",
+        "level_text": "Mutants (drop/duplicate/empty/truncate/retype/reorder/unknown IE/IPv6-only/FQDN Node IDs with empty, non-UTF-8, over-long or inconsistent labels/CHOOSE flags/flow-description surgery/header surgery, byte-level corruption, garbage, and unmutated templates in unusual states) of templates of all dispatched and undispatched message types are sent over UDP to the real agent on BESS and UP4 in states none/associated/session/modified/zero-PDR/deleted/released, with UE-IP allocation and heartbeats on and off. Oracle: process alive, probe heartbeat answered, at most one datagram back per datagram; when every injected datagram was dropped or rejected, a valid request on the SAME association (no new Association Setup) is still accepted; a canonical valid scenario afterwards succeeds on the same peer and on another. A process death is attributed to the case in flight, confirmed in a fresh process and delta-debugged.",
         "level_note": WIRE_NOTE,
     },
     "C02": {
         "engine": "rapid-wire",
         "technique": "stateful property-based testing (rapid) of the real agent over UDP with a per-request response-shape oracle and heartbeat probes",
-        "level_text": "Generated histories over 1-3 associations and several sessions are sent to the real agent over UDP; after every request the harness reads everything that comes back before the answer to a following probe heartbeat and checks count, type, sequence number, header SEID, Node ID, UP F-SEID, Created PDR set and rejection shape against the reference model. Exploration: thousands of histories per run, shrunk to a JSON replay on failure.",
+        "level_text": "Generated histories over 1-3 associations and several sessions are sent to the real agent over UDP; after every request the harness reads everything that comes back before the answer to a following probe heartbeat and checks count, type, sequence number, header SEID, Node ID, UP F-SEID, Created PDR set and rejection shape against the reference model; the order of member IEs inside grouped IEs is generated. Exploration: thousands of histories per run, shrunk to a JSON replay on failure.",
         "level_note": WIRE_NOTE,
     },
     "C03": {
@@ -38,7 +38,7 @@ TEXT = {
     "C09": {
         "engine": "rapid-wire",
         "technique": "model-based property testing (rapid) with an exact rate/gate oracle, lower-bound burst oracle and an admissible-set oracle for the agent's choice of session QER derived from the observed tables",
-        "level_text": "Sessions with 0-4 QERs (40-bit rates with boundaries, both gates, configured and unconfigured QFIs) and PDR QER lists drawn as permutations/sublists are established under three qci_qos_config variants and modified (add one/two QERs, update, remove, add PDR). After every accepted request every QER entry at the harness BESS server is checked: closed gate => drop gate, both rates zero => unmetered, else pir = MBR x 125, cir = max(GBR x 125, 1), cbs/pbs/ebs >= rate x duration and >= the configured minimum of the QFI. The session-wide QER is derived from the tables (QER without application-level entry): at most one, referenced by every PDR, session-level entries iff present and carrying its rates, and untouched (not rewritten) by modifications that do not update or remove it.",
+        "level_text": "Sessions with 0-4 QERs (40-bit rates with boundaries, both gates, configured and unconfigured QFIs) and PDR QER lists drawn as permutations/sublists are established under three qci_qos_config variants and modified (add one/two QERs, update, remove, add PDR). After every accepted request every QER entry at the harness BESS server is checked: closed gate => drop gate, both rates zero => unmetered, else pir = MBR x 125, cir = max(GBR x 125, 1), cbs/pbs/ebs >= rate x duration and >= the configured minimum of the QFI. The session-wide QER is derived from the tables (QER without application-level entry): at most one, referenced by every PDR, session-level entries iff present and carrying its rates, and untouched (not rewritten) by modifications that do not update or remove it. UP4 unit: after every accepted establishment, Update QER (new rates/gates/QFI), Update FAR or deletion, for every forwarding terminations entry the meter cells on its path (application cell named by the entry, session cell named by its sessions entry) must limit at exactly the multiset of MBR x 125 of the PDR's QERs for that direction, with bursts >= rate x 10 ms; closed gate => drop action, QFI => traffic class.",
         "level_note": WIRE_NOTE + " UP4 meters/traffic classes are covered by the UP4 unit when enabled in checks_table.py.",
     },
     "C17": {
@@ -55,8 +55,8 @@ TEXT = {
     },
     "C19": {
         "engine": "rapid-wire",
-        "technique": "property-based testing (rapid) of the real HTTP endpoint over raw TCP with the harness BESS server as observer of slice-meter commands",
-        "level_text": "Generated requests (PUT/POST with all units incl. absent/unknown and 64-bit rates/bursts around the 2^63 boundary, malformed and truncated bodies, other methods) are sent over raw TCP to the in-process agent: well-formed => exactly one 201 and sliceMeter uplink/downlink pir = converted/8 and pbs = posted burst whenever the rate is non-zero and fits 63 bits; malformed/unreadable => exactly one response, 4xx, single JSON body, zero sliceMeter commands; other methods => 405, zero commands.",
+        "technique": "property-based testing (rapid) of the real HTTP endpoint over raw TCP with the harness BESS and P4Runtime servers as observers of slice-meter commands, plus a metamorphic relation on absent bursts",
+        "level_text": "Generated requests (PUT/POST with all units incl. absent/unknown and 64-bit rates/bursts around the 2^63 boundary, malformed and truncated bodies, other methods) are sent over raw TCP to the in-process agent: well-formed => exactly one 201 and sliceMeter uplink/downlink pir = converted/8 and pbs = posted burst whenever the rate is non-zero and fits 63 bits; malformed/unreadable => exactly one response, 4xx, single JSON body, zero sliceMeter commands; other methods => 405, zero commands. A direction that posts no burst is programmed as by the same document without any burst. UP4 (every fourth case, three slice id / default TC configurations): exactly one MeterEntry, for cell (slice << 2) + default TC of slice_tc_meter, carrying the larger converted rate and that direction's burst; zero Writes for malformed bodies and other methods.",
         "level_note": WIRE_NOTE + " UP4 slice/TC meter cell is covered once the P4Runtime server unit is enabled for C19 in checks_table.py.",
     },
 }
@@ -71,49 +71,49 @@ TEXT.update({
     "C05": {
         "engine": "rapid-wire",
         "technique": "stateful property-based testing (rapid) over histories x endings with table-image, gauge and pool-occupancy (build-tag hook) oracles, plus black-box pool cycling",
-        "level_text": "Fresh agent per case on BESS or UP4 with UE-IP allocation on a /29 or /30 pool: a history of accepted and rejected establishments/modifications (rejected after allocation, first-PDR rejection, all PDRs removed, half-way rejection) is followed by one of five endings (Session Deletion, Association Release, Session Report Response 'context not found', silence past read_timeout, unanswered heartbeats) and then pool-size+2 attach/detach cycles. After the ending and after the cycles: tables hold the image of the live sessions only, pfcp_sessions equals the number of live sessions, UE IP / F-TEID / UP4 counter, meter, tunnel-peer and application pools hold exactly what live sessions hold, ended sessions are unknown.",
+        "level_text": "Fresh agent per case on BESS or UP4 with UE-IP allocation on a /29 or /30 pool: a history of accepted and rejected establishments/modifications (rejected after allocation, first-PDR rejection, all PDRs removed, half-way rejection) is followed by one of five endings (Session Deletion, Association Release, Session Report Response 'context not found', silence past read_timeout, unanswered heartbeats - optionally with a Session Establishment in flight at the instant of the heartbeat verdict against a slow datapath stand-in) and then pool-size+2 attach/detach cycles. After the ending and after the cycles: tables hold the image of the live sessions only, pfcp_sessions equals the number of live sessions, UE IP / F-TEID / UP4 counter, meter, tunnel-peer and application pools hold exactly what live sessions hold, ended sessions are unknown.",
         "level_note": WIRE_NOTE + " Pool occupancy is read through the add-only hook; the attach/detach cycles check the same black-box.",
     },
     "C07": {
         "engine": "rapid-wire",
         "technique": "property-based testing with adversarial injected random sources and cursor placement through build-tag hooks; model-based check of the F-TEID generator incl. concurrent allocation under -race",
-        "level_text": "Generator unit: allocate/free sequences with the cursor placed near 2^32 (ids non-zero, never one that is held, IsAllocated consistent), concurrent allocators under the race detector. Wire unit: establishment histories where the association's random source is replaced by constant / zero / zeros-then-fresh / 'collide with live SEIDs for r draws' sources with r around the retry limit and the TEID cursor near the wrap: accepted sessions get a non-zero SEID different from all live ones or the request is rejected, chosen TEIDs are non-zero and unique, and the reported F-SEID/F-TEIDs are those in the harness BESS tables.",
+        "level_text": "Generator unit: allocate/free sequences with the cursor placed near 2^32 (ids non-zero, never one that is held, IsAllocated consistent), concurrent allocators under the race detector. Wire unit: establishment histories where the association's random source is replaced by constant / zero / zeros-then-fresh / 'collide with live SEIDs for r draws' sources with r around the retry limit and the TEID cursor near the wrap: accepted sessions get a non-zero SEID different from all live ones or the request is rejected, chosen TEIDs are non-zero and unique, and the reported F-SEID/F-TEIDs are those in the harness BESS tables; modifications remove CHOOSE PDRs (accepted, or rejected because a later Remove IE names an unknown rule) and after every step the agent's set of allocated TEIDs (hook) must be exactly what live sessions hold.",
         "level_note": WIRE_NOTE + " The all-2^32-TEIDs-used branch is unreachable in test time.",
     },
     "C10": {
         "engine": "rapid-wire",
         "technique": "randomised schedule exploration (rapid-generated triggers with jitter around one instant) of the real agent under the Go race detector, with a delete-exactly-once oracle over the datapath command log",
-        "level_text": "One fresh agent per case with 0-4 associations of 0-3 sessions; every association gets a trigger {none, Association Release (optionally twice), silence past the 1 s read timeout, unanswered heartbeats} aimed at one instant with 0-30 ms jitter, optionally with a session request in flight, optionally with Stop() at that instant. Oracle: no panic, race report or deadlock (process death is attributed by the driver), Stop() returns within 15 s, every session of an ended association is deleted from the datapath exactly once and is unknown afterwards, the same peer can associate afresh, other associations keep their sessions and answer.",
+        "level_text": "One fresh agent per case with 0-4 associations of 0-3 sessions; every association gets a trigger {none, Association Release (optionally twice), silence past the 1 s read timeout, unanswered heartbeats} aimed at one instant with 0-30 ms jitter, optionally with Stop() at that instant, and optionally with a modification, establishment or deletion in flight: sent a drawn lead before the instant at which another goroutine starts the teardown (heartbeat verdict computed from the kernel timestamp of the first unanswered heartbeat; Stop()), while the datapath stand-in serves every command 0/4/15 ms late. Oracle: no panic, race report or deadlock (process death is attributed by the driver), Stop() returns within 15 s, every session of an ended association is deleted from the datapath exactly once and is unknown afterwards, nothing of an ended association stays installed (also not the session of an establishment that was in flight), no delete is answered not-found, the same peer can associate afresh, other associations keep their sessions and answer.",
         "level_note": "The harness does not own the Go scheduler: coincidences are sampled, a window narrower than the wake-up jitter can be missed. A failure is reported with the generated case; schedule-dependent failures may need several replays.",
     },
     "C11": {
         "engine": "rapid-wire",
         "technique": "concurrent stream generation (rapid) under the Go race detector with per-peer sequential-model oracles and a final union-of-images oracle",
-        "level_text": "2-8 scripted control-plane peers run own establish / Update FAR / delete streams at the same time against a fresh agent on BESS or UP4 (shared gNBs and filters), with generated pacing and 0-2 ms random datapath service delays. No race report; every peer sees exactly the responses of its own sequential model; the final tables equal the union of the per-peer images; after concurrent deletion of everything the tables are empty and all pool counters are back to start-up values.",
+        "level_text": "2-8 scripted control-plane peers run own establish / Update FAR (+ Update PDR in every third) / delete streams at the same time against a fresh agent on BESS or UP4 (shared gNBs and filters), with generated pacing and 0-2 ms random datapath service delays. No race report; every peer sees exactly the responses of its own sequential model; the final tables equal the union of the per-peer images; after concurrent deletion of everything the tables are empty and all pool counters are back to start-up values.",
         "level_note": "Schedules are sampled, not enumerated. Trusts the Go race detector.",
     },
     "C12": {
         "engine": "rapid-wire",
         "technique": "fault enumeration over the position of the answered transmission plus generated loss/duplicate/wrong-sequence scripts, with kernel receive timestamps and one-sided timing assertions",
-        "level_text": "Heartbeats: for N in 1..4 the scripted peer answers exactly the k-th transmission for every k = 1..N+1, or none, plus generated multi-round scripts with duplicated and wrong-sequence responses: <= 1+N transmissions with identical bytes, spacing >= resp_timeout - 2 ms, no transmission later than one resp_timeout after the answer, association alive iff answered, sessions removed when unanswered. Peer heartbeats answered before and after association with one Recovery Time Stamp equal to the setup response's and postponing the agent's own heartbeat; association accepted iff a datapath transport connection is up; FTUP/UEIP/EMPU feature bits per configuration in accepted, rejected and agent-originated messages; agent-initiated association retransmission with the peer bound to :8805.",
+        "level_text": "Heartbeats: for N in 1..4 the scripted peer answers exactly the k-th transmission for every k = 1..N+1, or none, plus generated multi-round scripts with duplicated and wrong-sequence responses and with the peer's own Heartbeat Request sent while the agent's is outstanding (the agent's next heartbeat must be postponed by it): <= 1+N transmissions with identical bytes, spacing >= resp_timeout - 2 ms, no transmission later than one resp_timeout after the answer, association alive iff answered, sessions removed when unanswered. Peer heartbeats answered before and after association with one Recovery Time Stamp equal to the setup response's and postponing the agent's own heartbeat; association accepted iff a datapath transport connection is up; FTUP/UEIP/EMPU feature bits per configuration in accepted, rejected and agent-originated messages; agent-initiated association retransmission with the peer bound to :8805.",
         "level_note": "Only one-sided timing facts are asserted; an answer that the harness itself sent late makes the liveness outcome inconclusive and is tolerated (labelled). The UP4 10 s reconnect sleep is not crossed.",
     },
     "C13": {
         "engine": "rapid-wire",
-        "technique": "property-based testing of the wire path (unixpacket notify socket -> Session Report Request) and of the rate limiter with bracketed timestamps",
-        "level_text": "Wire: fresh BESS agent with enable_notify_bess and a harness unixpacket listener; sessions of kinds BUFF|NOCP, BUFF, FORW, DROP, no downlink PDR; generated bursts of F-SEID reports over known, unknown and zero F-SEIDs; exactly one Session Report Request (DLDR, downlink PDR of the session, CP SEID in the header, fresh sequence number) per notifying session, none otherwise. Unit: the notifier with a 60 ms interval and generated call times: first report forwarded, two forwarded notifications at least an interval apart, a report at least an interval after the last forwarded one is forwarded.",
+        "technique": "property-based testing of the wire paths (BESS unixpacket notify socket / UP4 P4Runtime digests -> Session Report Request) and of the rate limiter with bracketed timestamps",
+        "level_text": "Wire: fresh agent on BESS (enable_notify_bess, harness unixpacket listener, 8-byte F-SEID reports) or, every third case, on UP4 (digests carrying UE addresses injected on the harness switch's stream); sessions of kinds BUFF|NOCP, BUFF, FORW, DROP, no downlink PDR; generated bursts of reports over known, unknown and zero F-SEIDs / UE addresses; exactly one Session Report Request (DLDR, downlink PDR of the session, CP SEID in the header, fresh sequence number) per notifying session, none otherwise. Unit: the notifier with a 60 ms interval and generated call times: first report forwarded, two forwarded notifications at least an interval apart, a report at least an interval after the last forwarded one is forwarded.",
         "level_note": "One association (the statement says so). The hard-coded 20 s interval is not crossed on the wire.",
     },
     "C14": {
         "engine": "rapid-wire",
-        "technique": "stateful property-based testing with packet decoding (gopacket) of everything written to the end-marker socket and a global event order between datapath writes and packets",
-        "level_text": "Sessions with 1-3 downlink FARs; modifications with 1-3 Update FARs each (new tunnel, buffer, drop; SNDEM set, clear, absent; unknown FAR ids; flagged Create FAR), end markers enabled and disabled. Exactly one GTP-U End Marker (type 254, ports 2152) per flagged applied update, addressed to the tunnel the rule used before, sourced from the access address, after the farLookup add of that rule; none otherwise.",
+        "technique": "stateful property-based testing with packet decoding (gopacket) of everything written to the end-marker socket (BESS) or sent as PacketOut (UP4) and a global event order between datapath writes and packets",
+        "level_text": "Sessions with 1-3 downlink FARs; modifications with 1-3 Update FARs each (new tunnel, buffer, drop; SNDEM set, clear, absent; unknown FAR ids; flagged Create FAR), end markers enabled and disabled. Exactly one GTP-U End Marker (type 254, ports 2152) per flagged applied update, addressed to the tunnel the rule used before, sourced from the access address, after the farLookup add of that rule (BESS) / after the last Write of the modification (UP4, every third case, one downlink FAR per session); none otherwise.",
         "level_note": WIRE_NOTE + " A flagged update of a rule that had no tunnel before is not asserted. UP4 PacketOut is exercised by C01 (wedge) only.",
     },
     "C15": {
         "engine": "rapid-wire",
         "technique": "exhaustive fault enumeration over the failing Write position (harness P4Runtime server fault plan) plus random multi-fault plans, with an identifier-exclusivity oracle over the switch state",
-        "level_text": "On a fresh UP4 agent whose switch declares small meter/counter arrays: two sessions sharing gNB and filter, then establishment / Update FAR modification / deletion with the k-th Write RPC failing for every k up to the fault-free count and each error code, optionally followed by deleting the sharing session, then further sessions. No counter cell, application/session meter cell, tunnel-peer id or application id is referenced by two live owners, none denotes another object than its owner asked for, no object is removed while a live session references it, no pool exceeds its start-up size, and an establishment or modification with a failed write is rejected.",
+        "level_text": "On a fresh UP4 agent whose switch declares small meter/counter arrays: two sessions sharing gNB and filter (in a third of the scenarios one PDR has a filter nothing else uses), then establishment / Update FAR modification / deletion with the k-th Write RPC failing for every k up to the fault-free count and each error code, optionally followed by deleting the sharing session, then further sessions. No counter cell, application/session meter cell, tunnel-peer id or application id is referenced by two live owners, none denotes another object than its owner asked for, no object is removed while a live session references it, no identifier referenced by an entry of a live session sits in its free pool (hook), no pool exceeds its start-up size, and an establishment or modification with a failed write is rejected.",
         "level_note": WIRE_NOTE + " ALREADY_EXISTS is tolerated by design and not injected. Leaks after failed requests belong to C05.",
     },
     "C16": {
